@@ -50,6 +50,7 @@ func c08Ops() []c08Op {
 	ops = append(ops, c08Op{kind: "write-done-ctx", name: "server writes the next message under a context that has already ended"})
 	ops = append(ops, c08Op{kind: "fresh", name: "client opens the standalone stream anew, without Last-Event-ID"})
 	ops = append(ops, c08Op{kind: "purge", name: "memory pressure: the event store evicts what it can"})
+	ops = append(ops, c08Op{kind: "server-close", name: "the handler ends the exchange itself (CloseSSEStream with a retry hint); the call goes on"})
 	ops = append(ops, c08Op{kind: "resume-broken", k: 0, name: "client resumes with the id of event #0 over a connection that breaks after the first replayed event"})
 	ops = append(ops, c08Op{kind: "resume-store-fault", k: 0, name: "client resumes with the id of event #0 while the event store fails that one read"})
 	return ops
@@ -100,6 +101,13 @@ func c08InBubble(o c08Opts, ops []c08Op, hist []int) verifx.SearchResult {
 		for cmd := range cmds {
 			if cmd == "respond" {
 				break
+			}
+			if cmd == "close" {
+				// a server-initiated disconnect: the client is asked to come back later, the call goes on
+				if r.Extra != nil && r.Extra.CloseSSEStream != nil {
+					r.Extra.CloseSSEStream(CloseSSEStreamArgs{RetryAfter: time.Second})
+				}
+				continue
 			}
 			if cmd == "ping" {
 				// a request of the server's, issued while handling the call: it travels on the call's stream
@@ -227,6 +235,7 @@ func c08InBubble(o c08Opts, ops []c08Op, hist []int) verifx.SearchResult {
 	doneCtxWrites := 0
 	pings := 0
 	purges := 0
+	closes := 0
 	responded := false
 	var attached *c08Exchange = first
 	idToData := map[string]string{}
@@ -338,6 +347,17 @@ func c08InBubble(o c08Opts, ops []c08Op, hist []int) verifx.SearchResult {
 				cmds <- "ping"
 			}
 			obs = "ping"
+		case "server-close":
+			if o.standalone || responded || closes >= 2 || attached == nil || attached.cut || attached.ended {
+				return verifx.SearchResult{Skip: true}
+			}
+			closes++
+			cmds <- "close"
+			synctest.Wait()
+			if !attached.ended {
+				return bad("server-close-leaves-exchange-open", "%s: the handler closed its stream, exchange %d is still open", where, attached.n)
+			}
+			obs = "server-close"
 		case "purge":
 			if !o.purge || purges >= 2 {
 				return verifx.SearchResult{Skip: true}
@@ -453,6 +473,11 @@ func c08InBubble(o c08Opts, ops []c08Op, hist []int) verifx.SearchResult {
 		if r := check(where); r != nil {
 			return *r
 		}
+		if op.kind == "server-close" {
+			// (it was caught up when it ended; what is written from now on is owed to a later resume)
+			attached.cut = true
+			attached = nil
+		}
 	}
 	// final: whatever happened, the complete stream is obtainable by one more resume from the first id
 	if streamKey != "" && (attached == nil || attached.ended) {
@@ -484,7 +509,7 @@ func c08InBubble(o c08Opts, ops []c08Op, hist []int) verifx.SearchResult {
 	if attached != nil && !attached.ended && !attached.cut {
 		att = fmt.Sprintf("attached@%d", attached.startIdx)
 	}
-	return verifx.SearchResult{Key: fmt.Sprintf("appended=%d responded=%v %s writes=%d/%d pings=%d purges=%d last=%s", len(gt), responded, att, writes, doneCtxWrites, pings, purges, obs), Obs: obs}
+	return verifx.SearchResult{Key: fmt.Sprintf("appended=%d responded=%v %s writes=%d/%d pings=%d purges=%d closes=%d last=%s", len(gt), responded, att, writes, doneCtxWrites, pings, purges, closes, obs), Obs: obs}
 }
 
 func TestVerifC08(t *testing.T) {
